@@ -451,6 +451,19 @@ type c18NestedSlice struct {
 type c18NestedPtrSlice struct {
 	VSA []*c18VSA `avp:"Vendor-Specific-Application-Id,omitempty"`
 }
+// a nested struct all of whose members may be omitted: the Grouped AVP itself is still there
+type c18AllOmit struct {
+	AuthApp uint32 `avp:"Auth-Application-Id,omitempty"`
+	AcctApp uint32 `avp:"Acct-Application-Id,omitempty"`
+}
+type c18PtrAllOmit struct {
+	Host string      `avp:"Origin-Host"`
+	VSA  *c18AllOmit `avp:"Vendor-Specific-Application-Id"`
+}
+type c18SliceAllOmit struct {
+	VSA  []c18AllOmit `avp:"Vendor-Specific-Application-Id"`
+	Host string       `avp:"Origin-Host"`
+}
 type C18Common struct {
 	Host  string `avp:"Origin-Host"`
 	Realm string `avp:"Origin-Realm"`
@@ -555,6 +568,41 @@ func c18Statics() []c18Static {
 					n.Children = append(n.Children, u32n(259, x.AcctApp))
 				}
 				want = append(want, n)
+			}
+			return s, append(want, strn(264, "h")), true
+		}},
+		{"pointer-to-struct-with-all-members-omitted", func(v int) (interface{}, []refcodec.Node, bool) {
+			if v >= 3 {
+				return nil, nil, false
+			}
+			vals := []c18AllOmit{{}, {4, 0}, {0, 3}}
+			g := refcodec.Node{Code: 260, Flags: 0x40, Group: true}
+			if vals[v].AuthApp != 0 {
+				g.Children = append(g.Children, u32n(258, vals[v].AuthApp))
+			}
+			if vals[v].AcctApp != 0 {
+				g.Children = append(g.Children, u32n(259, vals[v].AcctApp))
+			}
+			x := vals[v]
+			return &c18PtrAllOmit{Host: "h", VSA: &x}, []refcodec.Node{strn(264, "h"), g}, true
+		}},
+		{"slice-of-structs-with-an-element-whose-members-are-all-omitted", func(v int) (interface{}, []refcodec.Node, bool) {
+			if v >= 4 {
+				return nil, nil, false
+			}
+			sets := [][]c18AllOmit{{{4, 0}, {}, {0, 3}}, {{}}, {{}, {4, 3}}, {{4, 0}, {}}}
+			s := &c18SliceAllOmit{Host: "h"}
+			var want []refcodec.Node
+			for _, x := range sets[v] {
+				s.VSA = append(s.VSA, x)
+				g := refcodec.Node{Code: 260, Flags: 0x40, Group: true}
+				if x.AuthApp != 0 {
+					g.Children = append(g.Children, u32n(258, x.AuthApp))
+				}
+				if x.AcctApp != 0 {
+					g.Children = append(g.Children, u32n(259, x.AcctApp))
+				}
+				want = append(want, g)
 			}
 			return s, append(want, strn(264, "h")), true
 		}},
@@ -791,7 +839,7 @@ func runC18(ctx *ev.Ctx) {
 			}
 		}
 	}
-	ctx.Rule = "struct types built with reflect.StructOf: one field for each of 21 dictionary AVPs (including a vendor-specific AVP whose must attribute does not list V and a vendor-less one whose must does) (every scalar data type, a vendor-specific AVP, Float32/64, IPv4/6, IPFilterRule, QoSFilterRule from a generated dictionary) x each Go holder type (native scalar, datatype type, net.IP, []byte, time.Time) x wrapper {T, *T, []T, []*T} x nine tag forms (plain, omitempty, each with a second key before/after, other keys carrying their own ,omitempty option before/after) x values {boundary atoms; nil pointer; nil, empty, 1-, 2- and 4-element slices}; plus static shapes: nested struct, pointer to struct, slice of structs with omitempty members, slice of pointers, anonymous embedded struct (first, after a tagged field, in the middle, of an unexported type), group in group, AVP / *AVP / []*AVP fields; the struct shapes also in a message carrying a private dictionary that defines every name used with another code, other flags and vendor ids (members of nested structs must be resolved through the message's dictionary too). Every other case marshals into a message that already holds an AVP and has been marshalled into before. Oracle: the AVP bytes Marshal produces equal the AVPs built by hand from the reference dictionary entry (code, vendor id, M from must, V from vendor, typed value); Unmarshal directly and after Serialize+ReadMessage reproduces the field values (nil == empty for slices, times by second, floats by bits)."
+	ctx.Rule = "struct types built with reflect.StructOf: one field for each of 21 dictionary AVPs (including a vendor-specific AVP whose must attribute does not list V and a vendor-less one whose must does) (every scalar data type, a vendor-specific AVP, Float32/64, IPv4/6, IPFilterRule, QoSFilterRule from a generated dictionary) x each Go holder type (native scalar, datatype type, net.IP, []byte, time.Time) x wrapper {T, *T, []T, []*T} x nine tag forms (plain, omitempty, each with a second key before/after, other keys carrying their own ,omitempty option before/after) x values {boundary atoms; nil pointer; nil, empty, 1-, 2- and 4-element slices}; plus static shapes: nested struct, pointer to struct, slice of structs with omitempty members (an element or a pointed-to struct all of whose members are omitted still yields its - empty - Grouped AVP), slice of pointers, anonymous embedded struct (first, after a tagged field, in the middle, of an unexported type), group in group, AVP / *AVP / []*AVP fields; the struct shapes also in a message carrying a private dictionary that defines every name used with another code, other flags and vendor ids (members of nested structs must be resolved through the message's dictionary too). Every other case marshals into a message that already holds an AVP and has been marshalled into before. Oracle: the AVP bytes Marshal produces equal the AVPs built by hand from the reference dictionary entry (code, vendor id, M from must, V from vendor, typed value); Unmarshal directly and after Serialize+ReadMessage reproduces the field values (nil == empty for slices, times by second, floats by bits)."
 	ctx.Assume = []string{"holder types are those for which the reflect code has a conversion path (AssignableTo / ConvertibleTo); Address holders carry IPv4 / IPv6 only"}
 }
 
